@@ -435,14 +435,31 @@ func backSlice(vs ...ssa.Value) *Slice {
 				push(e)
 			}
 		case *ssa.UnOp:
-			push(x.X)
 			if x.Op == token.MUL {
 				root := addrRoot(x.X)
 				if al, ok := root.(*ssa.Alloc); ok {
-					for _, st := range storesInto(al) {
-						push(st.Val)
+					// load from a local: depends on the values that may have been written before the load
+					// (reaching definitions), not on the alloc's later history
+					for _, w := range allocWritersBefore(al, x) {
+						push(w)
 					}
+					// the address computation itself is part of the slice (field selections are what
+					// HasField looks for), but the alloc is not expanded flow-insensitively
+					for a := x.X; a != nil; {
+						s.Vals[a] = true
+						switch y := a.(type) {
+						case *ssa.IndexAddr:
+							push(y.Index)
+							a = y.X
+						case *ssa.FieldAddr:
+							a = y.X
+						default:
+							a = nil
+						}
+					}
+					continue
 				}
+				push(x.X)
 				if fv, ok := root.(*ssa.FreeVar); ok {
 					// captured variable: values stored in the parent
 					if b := freeVarBinding(fv); b != nil {
@@ -454,10 +471,28 @@ func backSlice(vs ...ssa.Value) *Slice {
 						}
 					}
 				}
+			} else {
+				push(x.X)
 			}
 		case *ssa.FreeVar:
 			if b := freeVarBinding(x); b != nil {
 				push(b)
+			}
+		case *ssa.MakeSlice:
+			// content copied in by the copy builtin
+			if x.Referrers() != nil {
+				for _, ref := range *x.Referrers() {
+					if c, ok := ref.(*ssa.Call); ok {
+						if b, ok := c.Call.Value.(*ssa.Builtin); ok && b.Name() == "copy" && len(c.Call.Args) == 2 && c.Call.Args[0] == ssa.Value(x) {
+							push(c.Call.Args[1])
+						}
+					}
+				}
+			}
+			for _, op := range x.Operands(nil) {
+				if op != nil && *op != nil {
+					push(*op)
+				}
 			}
 		case *ssa.Alloc:
 			// the address of a local escapes into the slice (passed by pointer): its content
@@ -618,3 +653,108 @@ func allocWriters(al *ssa.Alloc) []ssa.Value {
 }
 
 func readFile(p string) ([]byte, error) { return os.ReadFile(p) }
+
+// instrMayPrecede: there is a CFG path on which a executes before b (same function).
+func instrMayPrecede(a, b ssa.Instruction) bool {
+	ba, bb := a.Block(), b.Block()
+	if ba == nil || bb == nil || ba.Parent() != bb.Parent() {
+		return true
+	}
+	if ba == bb {
+		ia, ib := -1, -1
+		for i, in := range ba.Instrs {
+			if in == a {
+				ia = i
+			}
+			if in == b {
+				ib = i
+			}
+		}
+		if ia < ib {
+			return true
+		}
+		// later in the same block: only via a cycle back to the block
+		for _, s := range ba.Succs {
+			if blockReachesMemo(s, ba) {
+				return true
+			}
+		}
+		return false
+	}
+	return blockReachesMemo(ba, bb)
+}
+
+var reachMemo = map[[2]*ssa.BasicBlock]bool{}
+
+func blockReachesMemo(from, to *ssa.BasicBlock) bool {
+	k := [2]*ssa.BasicBlock{from, to}
+	if v, ok := reachMemo[k]; ok {
+		return v
+	}
+	seen := map[*ssa.BasicBlock]bool{}
+	work := []*ssa.BasicBlock{from}
+	found := false
+	for len(work) > 0 && !found {
+		x := work[len(work)-1]
+		work = work[:len(work)-1]
+		if x == to {
+			found = true
+			break
+		}
+		if seen[x] {
+			continue
+		}
+		seen[x] = true
+		work = append(work, x.Succs...)
+	}
+	reachMemo[k] = found
+	return found
+}
+
+// allocWritersBefore: values that may have flowed into the local alloc before instruction `at`:
+// stored values and the arguments of calls that received (a derived pointer to) the alloc.
+func allocWritersBefore(al *ssa.Alloc, at ssa.Instruction) []ssa.Value {
+	var out []ssa.Value
+	seen := map[ssa.Value]bool{}
+	var walk func(a ssa.Value)
+	walk = func(a ssa.Value) {
+		if seen[a] {
+			return
+		}
+		seen[a] = true
+		refs := a.Referrers()
+		if refs == nil {
+			return
+		}
+		for _, r := range *refs {
+			switch x := r.(type) {
+			case *ssa.Store:
+				if x.Addr == a && instrMayPrecede(x, at) {
+					out = append(out, x.Val)
+				}
+			case *ssa.FieldAddr:
+				if x.X == a {
+					walk(x)
+				}
+			case *ssa.IndexAddr:
+				if x.X == a {
+					walk(x)
+				}
+			case *ssa.MakeInterface:
+				walk(x)
+			case *ssa.ChangeType:
+				walk(x)
+			case ssa.CallInstruction:
+				if instrMayPrecede(x, at) {
+					for _, arg := range callArgs(x) {
+						if arg != a {
+							out = append(out, arg)
+						}
+					}
+				}
+			}
+		}
+	}
+	walk(al)
+	return out
+}
